@@ -25,6 +25,7 @@ fn allowed_map(sc: &HubSc, init: &BTreeMap<String, Vec<u8>>) -> BTreeMap<String,
             if let Req::Put { path, size, declared, shared_body, .. } = q {
                 let body = match shared_body {
                     Some(t) => put_body(99, *t as usize, (*size).max(24)),
+                    None if *size == 0 => Vec::new(),
                     None => put_body(ci, qi, (*size).max(24)),
                 };
                 if *declared == Declared::Valid || matches!(declared, Declared::ExcessBytes(_)) {
